@@ -3,8 +3,8 @@
      LVisited   walk over a reference attribute with a visited list: terminates by `visited_walk_terminates`
      LFinder    `while let Some(id) = find_recursive_*(doc) { remove the attribute }`: Proofs/Links.v run_loop_adequate
                 (Props C01_fix_loops_terminate)
-     LCounter   counter loop, argued informally - NOT PROVED          LGenId  id generator: the counter grows, the set of taken
-     LOwned     walk down an owned (Arc) tree - NOT PROVED                     ids is finite - NOT PROVED
+     LCounter   counter loop, argued informally - NOT PROVED          LGenId  id generator: `gen_id_terminates` (at most |taken| + 1
+     LOwned     walk down an owned (Arc) tree - NOT PROVED                     iterations, the id is not taken)
      LReviewed  read and argued informally - NOT PROVED
    A loop that follows reference attributes (l_links) is accepted only with a proved class. *)
 From Coq Require Import QArith Bool List String NArith Arith Lia.
@@ -166,6 +166,48 @@ Lemma cache_sites_pinned :
                      ("masks", "convert", "insert"); ("filters", "convert_url", "insert")].
 Proof. vm_compute. repeat split; reflexivity. Qed.
 
+(* ---- (4) an id generator returns after at most |taken| + 1 iterations with an id that is not taken ---- *)
+Lemma filter_len_le : forall (P Q : N -> bool) l, (forall t, Q t = true -> P t = true) ->
+  (length (filter Q l) <= length (filter P l))%nat.
+Proof.
+  intros P Q l H. induction l as [|a l IH]; [simpl; lia|]. simpl.
+  destruct (Q a) eqn:Eq; [rewrite (H a Eq); simpl; lia|]. destruct (P a); simpl; lia.
+Qed.
+Lemma filter_shrink : forall (P Q : N -> bool) l x, In x l -> P x = true -> Q x = false ->
+  (forall t, Q t = true -> P t = true) -> (length (filter Q l) < length (filter P l))%nat.
+Proof.
+  intros P Q l x Hin HP HQ H. induction l as [|a l IH]; [destruct Hin|]. simpl. destruct Hin as [->|Hin].
+  - rewrite HP, HQ. simpl. pose proof (filter_len_le P Q l H). lia.
+  - specialize (IH Hin). destruct (Q a) eqn:Eq; [rewrite (H a Eq); simpl; lia|]. destruct (P a); simpl; lia.
+Qed.
+
+Lemma gen_id_inv : forall taken fuel n, (length (filter (fun t => N.ltb n t) taken) < fuel)%nat ->
+  exists r k, gen_id taken fuel n = Some (r, k) /\ ~ In r taken /\ (n < r)%N.
+Proof.
+  intros taken fuel. induction fuel as [|f IH]; intros n Hlen; [lia|]. simpl.
+  destruct (memN (N.succ n) taken) eqn:Em.
+  - assert (In (N.succ n) taken) as Hin.
+    { unfold memN in Em. apply existsb_exists in Em. destruct Em as (y & Hy & Heq). apply N.eqb_eq in Heq. subst y. exact Hy. }
+    assert (length (filter (fun t => N.ltb (N.succ n) t) taken) < length (filter (fun t => N.ltb n t) taken))%nat as Hs.
+    { apply (filter_shrink _ _ taken (N.succ n) Hin).
+      - apply N.ltb_lt. lia.
+      - apply N.ltb_ge. lia.
+      - intros t Ht. apply N.ltb_lt in Ht. apply N.ltb_lt. lia. }
+    destruct (IH (N.succ n)) as (r & k & H1 & H2 & H3); [lia|]. exists r, k. repeat split; [exact H1|exact H2|lia].
+  - exists (N.succ n), (S f). repeat split; [apply memN_false_notin; exact Em|lia].
+Qed.
+
+Lemma filter_true_id : forall l : list N, filter (fun _ : N => true) l = l.
+Proof. induction l as [|a l IHl]; [reflexivity|]. simpl. rewrite IHl. reflexivity. Qed.
+
+Theorem gen_id_terminates : forall taken n,
+  exists r k, gen_id taken (S (length taken)) n = Some (r, k) /\ ~ In r taken /\ (n < r)%N.
+Proof.
+  intros taken n. apply gen_id_inv.
+  pose proof (filter_len_le (fun _ => true) (fun t => N.ltb n t) taken (fun _ _ => eq_refl)) as H.
+  rewrite filter_true_id in H. lia.
+Qed.
+
 (* ---- loop ledger ---- *)
 Definition loop_ledger : list (string * string * string * string * lterm) := [
   ("parser/clippath.rs", "is_cacheable", "while let Some(link) = chain.last().and_then(|n| n.attribute::<SvgNode>(AId::ClipPath))", "647727500cbe", LVisited);
@@ -176,7 +218,7 @@ Definition loop_ledger : list (string * string * string * string * lterm) := [
   ("parser/converter.rs", "gen_mask_id", "loop", "64243b562b13", LGenId);
   ("parser/converter.rs", "gen_filter_id", "loop", "2b9af52574b2", LGenId);
   ("parser/converter.rs", "gen_image_id", "loop", "5a959846c852", LGenId);
-  ("parser/filter.rs", "gen_result", "loop", "c3be2f65bbdd", LReviewed "gen_result: `results.idx` is advanced on every iteration (fix for seeded C01-10) and the names taken are finitely many");
+  ("parser/filter.rs", "gen_result", "loop", "c3be2f65bbdd", LGenId);
   ("parser/marker.rs", "draw_markers", "while i < total", "986c1ed4cf2b", LCounter "`i` is advanced by 1 at the end of every iteration (no `continue`), `total` is fixed");
   ("parser/mask.rs", "is_cacheable", "while let Some(link) = chain.last().and_then(|n| n.attribute::<SvgNode>(AId::Mask))", "647727500cbe", LVisited);
   ("parser/paint_server.rs", "convert_stops", "while i < stops.len() - 2", "8ad9d2a9f43d", LCounter "`i += 1` on every path of the body; a removal shrinks stops.len() instead");
@@ -197,3 +239,59 @@ Lemma loops_discharged : forallb (loop_discharged_by loop_ledger) parser_loops =
 Proof. vm_compute. reflexivity. Qed.
 Lemma loop_ledger_tight : forallb loop_entry_live loop_ledger = true.
 Proof. vm_compute. reflexivity. Qed.
+
+(* ---- recursion ledger (HAND-MAINTAINED; the member lists are in Gen/Totality.v) ---- *)
+Local Open Scope string_scope.
+Definition rec_ledger : list (string * rterm) := [
+  ("f1d7d3acbf04", RGuarded "converter: every cycle either descends to a child of an svgtree node (depth <= DEPTH_LIMIT + 2, C01_build_depth_bounded) or follows a reference attribute, where the pre-pass removed self / 2-cycles (C01_fix_loops_terminate), the in-progress lists parent_defs / parent_markers stop longer cycles (C03 theorems, C01_convert_terminates), use instances are counted against NODES_LIMIT and nested marker instances against the limit of fix 0f46e14"); (* parser/clippath.rs::convert ... *)
+  ("58482c074915", RNameClash); (* parser/converter.rs::new *)
+  ("88c9411cbc48", RReviewed "load_sub_svg parses a nested SVG image with image loading of the sub-document disabled (its resolvers return None), so the nesting depth is 1; the other members are a name clash (Default::default)"); (* parser/image.rs::default ... *)
+  ("4f17e3f9cb92", RNameClash); (* parser/marker.rs::is_valid ... *)
+  ("eacb59ad4bb4", RNameClash); (* parser/options.rs::default *)
+  ("a719d839b92c", RStructural "walks the converted usvg tree (Group children, pattern / mask / clip roots): owned, finite, acyclic by construction (Arc without back references)"); (* parser/paint_server.rs::node_to_user_coordinates ... *)
+  ("dcd5cd03a314", RStructural "recursion over the children of a usvg Group / svgtree node: an owned, finite tree"); (* parser/svgtree/mod.rs::descendants *)
+  ("31da94d9a03f", RNameClash); (* parser/svgtree/mod.rs::eq *)
+  ("378c31e7410f", RNameClash); (* parser/svgtree/mod.rs::get ... *)
+  ("8624618bf31f", RNameClash); (* parser/svgtree/mod.rs::new *)
+  ("646af28683f7", RStructural "Debug printing: descends the svgtree"); (* parser/svgtree/mod.rs::print_children *)
+  ("f80352ce05d1", RReviewed "resolve_inherit calls Document::append_attribute (a different fn of the same name), which does not call back"); (* parser/svgtree/parse.rs::append_attribute ... *)
+  ("3185eeaaa9ce", RNameClash); (* parser/svgtree/parse.rs::parent_element *)
+  ("fc969d51b50a", RDepthProved); (* parser/svgtree/parse.rs::parse_svg_use_element ... *)
+  ("dacf2f854da0", RNameClash); (* parser/svgtree/parse.rs::prev_sibling_element *)
+  ("fc21d90e9773", RStructural "descends the svgtree below a text element: depth <= DEPTH_LIMIT (fix 09fa255)"); (* parser/svgtree/text.rs::collect_text_nodes *)
+  ("aff018da9099", RDepthProved); (* parser/svgtree/text.rs::parse_svg_text_element_impl *)
+  ("d7fe19289e28", RNameClash); (* tree/mod.rs::abs_bounding_box *)
+  ("3f1a0ea96474", RNameClash); (* tree/mod.rs::abs_layer_bounding_box *)
+  ("c4de38030094", RNameClash); (* tree/mod.rs::abs_stroke_bounding_box *)
+  ("ffd673750ea4", RNameClash); (* tree/mod.rs::abs_transform *)
+  ("cebe16feed99", RNameClash); (* tree/mod.rs::bounding_box *)
+  ("10268ca17a5f", RNameClash); (* tree/mod.rs::calculate_stroke_bbox ... *)
+  ("062be26c3f56", RStructural "recursion over the children of a usvg Group / svgtree node: an owned, finite tree"); (* tree/mod.rs::collect_clip_paths *)
+  ("d7b3cac2ca88", RStructural "recursion over the children of a usvg Group / svgtree node: an owned, finite tree"); (* tree/mod.rs::collect_filters *)
+  ("98de5a81ad4e", RStructural "recursion over the children of a usvg Group / svgtree node: an owned, finite tree"); (* tree/mod.rs::collect_masks *)
+  ("0ea5dbc8bde6", RNameClash); (* tree/mod.rs::default *)
+  ("581b4ab6a5f0", RNameClash); (* tree/mod.rs::empty *)
+  ("acc7274dc9c3", RStructural "recursion over the children of a usvg Group / svgtree node: an owned, finite tree"); (* tree/mod.rs::has_text_nodes *)
+  ("ffb02d0b488b", RStructural "recursion over the children of a usvg Group / svgtree node: an owned, finite tree"); (* tree/mod.rs::loop_over_paint_servers *)
+  ("3f996616b63d", RStructural "recursion over the children of a usvg Group / svgtree node: an owned, finite tree"); (* tree/mod.rs::node_by_id *)
+  ("d8fcefd695c2", RNameClash); (* tree/mod.rs::stroke_bounding_box *)
+  ("03cff86c3b3a", RStructural "recursion over the children of a usvg Group / svgtree node: an owned, finite tree") (* tree/mod.rs::subroots *)
+].
+
+Lemma recursions_discharged : forallb (rec_discharged_by rec_ledger) parser_recursions = true.
+Proof. vm_compute. reflexivity. Qed.
+Lemma rec_ledger_tight : forallb rec_entry_live rec_ledger = true.
+Proof. vm_compute. reflexivity. Qed.
+
+(* ---- iterator ledger (HAND-MAINTAINED) ---- *)
+Definition iter_ledger : list (string * string * string * iterm) := [
+  ("parser/svgtree/mod.rs", "Ancestors", "4c7cf639c194", ITree "next = parent(): the parent id is smaller than the node id (nodes are appended after their parent), the root has none");
+  ("parser/svgtree/mod.rs", "Children", "202a98a86ac0", ITree "front moves to next_sibling until it passes back; sibling ids grow");
+  ("parser/svgtree/mod.rs", "Traverse", "3532087cbc6e", ITree "Open / Close edges of a depth-first walk over the subtree of the root: 2 x (number of nodes) steps");
+  ("parser/svgtree/mod.rs", "Descendants", "4058cad6ad04", ITree "Traverse filtered to Open edges");
+  ("parser/svgtree/mod.rs", "HrefIter", "f343e7b01eb6", IHrefProved)
+].
+Lemma iterators_discharged :
+  forallb (iter_discharged_by iter_ledger) parser_iterators = true /\ forallb iter_entry_live iter_ledger = true /\
+  parser_unbounded_sources = [].
+Proof. vm_compute. repeat split; reflexivity. Qed.
